@@ -195,10 +195,12 @@ def frame_scenario(seed, sweep=False):
     resp, ops, states = responder_node(rng, "R")
     if rng.random() < 0.6:
         resp["lst"] = [{"tag": "i48", "kind": "int", "adr": 0x30}]
+        if rng.random() < 0.5:
+            resp["lst"].append({"tag": "i0", "kind": "int", "adr": 0})        # address 0 is a valid (falsy) address
     helds = [s["held"] for s in states if s["held"] is not None]
     prefs = [s["pref"] for s in states]
     t = 2_000_000
-    dests = list(range(256)) if sweep else [rng.choice(helds + prefs + [255, 254, 0x30, 0x77, rng.randint(0, 255)]) for _ in range(rng.randint(2, 10))]
+    dests = list(range(256)) if sweep else [rng.choice(helds + prefs + [255, 254, 0x30, 0, 0x77, rng.randint(0, 255)]) for _ in range(rng.randint(2, 10))]
     pf0 = rng.choice([0xD0, 0x00, 0xEF, 0xC3])
     for i, dest in enumerate(dests):
         kind = rng.random()
